@@ -23,6 +23,9 @@ FLAVORS = {
     "tsan": dict(
         cflags=COMMON + " -fsanitize=thread -mllvm -tsan-instrument-memory-accesses=0 -mllvm -tsan-instrument-memintrinsics=0",
         opt="-O1 -g", hcflags="-O1 -fsanitize=thread", ldflags="-fsanitize=thread", cmake=[]),
+    # reach map only (scripts/coverage.py); never part of a check
+    "cov": dict(cflags=COMMON + " -fprofile-instr-generate -fcoverage-mapping", opt="-O1 -g", hcflags="-O1",
+                ldflags="-fprofile-instr-generate", cmake=[]),
     "dbg": dict(cflags=COMMON + " -Wno-error=format -Wno-error", opt="-O2 -g", hcflags="-O2", ldflags="",
                 cmake=["-DDISPATCH_ENABLE_ASSERTS=ON"]),
 }
